@@ -266,6 +266,79 @@ fn rerun_case(c: &RerunCase, max_sched: usize, free_runs: usize) -> (Vec<Violati
     (vs, explored + free, nontrivial, outcomes)
 }
 
+/// One generated file is moved elsewhere after the first run and a symbolic link left in its place
+/// (bindings shared between packages): the file is still there for every reader, so two more
+/// unchanged, non-forced runs must leave everything untouched - link, target and the other files.
+fn linked_output_case(file: &str, zod: bool, seam: Seam) -> (Vec<Violation>, Vec<String>) {
+    let project = multi_file_project(2);
+    let cfg = FileCfg { zod, ..Default::default() };
+    let sb = run::Sandbox::new();
+    sbx::write_sources(&sb.root, &project, &cfg);
+    let od = sbx::out_dir(&sb.root, &cfg);
+    let r1 = sbx::run_generate(&sb.root, seam, &RunOpts::default());
+    if !r1.success() || !od.join(file).is_file() {
+        return (vec![], vec![format!("linked: run1 failed {}", r1.status_string())]);
+    }
+    let shared = sb.path("shared-bindings");
+    let _ = std::fs::create_dir_all(&shared);
+    let target = shared.join(file);
+    if std::fs::rename(od.join(file), &target).is_err() || std::os::unix::fs::symlink(&target, od.join(file)).is_err() {
+        return (vec![], vec!["linked: could not create the link".into()]);
+    }
+    // (follows links: the state a reader of the directory sees)
+    let stat = |dir: &Path| -> BTreeMap<String, (Vec<u8>, u64, bool)> {
+        let mut m = BTreeMap::new();
+        if let Ok(rd) = std::fs::read_dir(dir) {
+            for e in rd.flatten() {
+                let p = e.path();
+                let mt = std::fs::metadata(&p).ok().and_then(|md| md.modified().ok()).and_then(|t| t.duration_since(SystemTime::UNIX_EPOCH).ok()).map(|d| d.as_secs()).unwrap_or(0);
+                let is_link = std::fs::symlink_metadata(&p).map(|md| md.file_type().is_symlink()).unwrap_or(false);
+                m.insert(e.file_name().to_string_lossy().to_string(), (std::fs::read(&p).unwrap_or_default(), mt, is_link));
+            }
+        }
+        m
+    };
+    let mut vs = vec![];
+    let mut outcomes = vec![];
+    for run_no in 2..=3 {
+        set_mtimes_past(&od);
+        let before = stat(&od);
+        let r = sbx::run_generate(&sb.root, seam, &RunOpts::default());
+        let after = stat(&od);
+        let mut t: Vec<String> = vec![];
+        for (n, b) in &before {
+            match after.get(n) {
+                None => t.push(format!("{} deleted", n)),
+                Some(a) if a.0 != b.0 => t.push(format!("{} content changed", n)),
+                Some(a) if a.1 != b.1 => t.push(format!("{} rewritten (mtime changed)", n)),
+                Some(a) if a.2 != b.2 => t.push(format!("{} is {} a link", n, if a.2 { "now" } else { "no longer" })),
+                _ => {}
+            }
+        }
+        t.extend(after.keys().filter(|n| !before.contains_key(*n)).map(|n| format!("{} created", n)));
+        outcomes.push(format!("linked:{}|touched={}", r.status_string(), t.len()));
+        if !r.success() || !t.is_empty() {
+            vs.push(
+                Violation::new(
+                    "C14",
+                    "needless-rewrite",
+                    format!("{} is a symbolic link to the moved file, {} mode, {}: unchanged non-forced run #{} -> {}; touched: {}", file, cfg.mode_name(), seam.name(), run_no, r.status_string(), t.join(", ")),
+                    json!({"kind":"linked","file":file,"zod":zod,"seam":seam.name()}),
+                )
+                .field("seam", seam.name())
+                .field("mode", cfg.mode_name())
+                .field("files", "2")
+                .field("mappings", "0")
+                .field("duplicate_type_name", "false")
+                .field("deviating_sites", format!("linked-output:{}", file))
+                .rank(5),
+            );
+            break;
+        }
+    }
+    (vs, outcomes)
+}
+
 #[derive(Debug, Clone, Copy, PartialEq)]
 enum CacheState {
     Absent,
@@ -394,6 +467,9 @@ fn force_case(cache: CacheState, file_force: Option<bool>, flag: bool, seam: Sea
 pub fn replay(case: &Value) -> Vec<Violation> {
     let seam = if case["seam"] == "build" { Seam::Build } else { Seam::Cli };
     let zod = case["zod"].as_bool().unwrap_or(false);
+    if case["kind"] == "linked" {
+        return linked_output_case(case["file"].as_str().unwrap_or("types.ts"), zod, seam).0;
+    }
     if case["kind"] == "force" {
         let cache = match case["cache"].as_str().unwrap_or("") {
             "Absent" => CacheState::Absent,
@@ -490,6 +566,14 @@ pub fn run(tier: Tier) -> CheckResult {
                 res.machinery_errors.push("hook replay divergence (exit 97) in a second run".into());
             }
         }
+        outcomes.extend(o);
+        violations.extend(v);
+    }
+    // a generated file replaced by a link to where it was moved
+    let linked: Vec<(&str, bool, Seam)> = ["types.ts", "commands.ts", "index.ts", "events.ts"].iter().flat_map(|f| [(*f, false, Seam::Cli), (*f, true, Seam::Cli), (*f, false, Seam::Build), (*f, true, Seam::Build)]).collect();
+    let lres: Vec<(Vec<Violation>, Vec<String>)> = linked.par_iter().map(|(f, z, s)| linked_output_case(f, *z, *s)).collect();
+    for (v, o) in lres {
+        schedules += 2;
         outcomes.extend(o);
         violations.extend(v);
     }
